@@ -77,6 +77,7 @@ type fsetOp struct {
 	sel   []string
 	ign   []string
 	inc   []string
+	tree2 []string // rebuild only: the source tree at the time of the second Build on the same Builder
 	pre   string // build only: what sits at the rule's output path before the build (dangling|file|dir|inside|fifo)
 }
 
@@ -85,6 +86,9 @@ func (o *fsetOp) line() string {
 		hs(o.name), hl(o.files), hl(o.sel), hl(o.ign), hl(o.inc))
 	if o.pre != "" {
 		l += " pre=" + o.pre
+	}
+	if o.kind == "rebuild" {
+		l += " tree2=" + hl(o.tree2)
 	}
 	return l
 }
@@ -108,6 +112,9 @@ func parseFsetOp(ws []string) (*fsetOp, bool) {
 	}
 	o.p, o.tree, o.name, o.files, o.sel, o.ign, o.inc = unhs(p), unhl(t), unhs(n), unhl(f), unhl(s), unhl(i), unhl(c)
 	o.pre, _ = get("pre")
+	if t2, ok := get("tree2"); ok {
+		o.tree2 = unhl(t2)
+	}
 	return o, true
 }
 
@@ -277,6 +284,30 @@ func changedOutside(before, after map[string]snapEnt, allowed string) []string {
 	for p := range before {
 		if _, ok := after[p]; !ok && !in(p) {
 			out = append(out, "removed:"+p)
+		}
+	}
+	sort.Strings(out)
+	return out
+}
+
+// outsidePackageDir: what a build created under <root>/out that is neither the
+// cache nor beneath out/<package>/ (directories on the way to it are fine)
+func outsidePackageDir(before, after map[string]snapEnt, pkg string) []string {
+	var out []string
+	if pkg == "" {
+		return nil
+	}
+	for p, a := range after {
+		if _, ok := before[p]; ok || !strings.HasPrefix(p, "ws/out/") {
+			continue
+		}
+		rel := strings.TrimPrefix(p, "ws/out/")
+		switch {
+		case strings.HasPrefix(rel, "CACHE"):
+		case strings.HasPrefix(rel, pkg+"/"):
+		case a.mode.IsDir() && (rel == pkg || strings.HasPrefix(pkg, rel+"/")):
+		default:
+			out = append(out, "out/"+rel)
 		}
 	}
 	sort.Strings(out)
@@ -676,8 +707,16 @@ func (c *ctx) judgeBuild(o *fsetOp) (out, key, desc string) {
 		return "changed", "write-outside-out", fmt.Sprintf(
 			"building file_set %q in package %q changed the file system outside <root>/out: %s", o.name, o.p, strings.Join(ch, " "))
 	}
+	if bad := outsidePackageDir(before, after, o.p); len(bad) > 0 {
+		return "misplaced", "output-outside-package-dir", fmt.Sprintf(
+			"building file_set %q declared in package %q wrote %s, outside <root>/out/%s/", o.name, o.p, strings.Join(bad, " "), o.p)
+	}
 	if errs != nil {
 		return "err", "", ""
+	}
+	if target == o.p {
+		return "unnamed-built", "rule-named-as-its-package", fmt.Sprintf(
+			"file_set %q in package %q resolves to the package itself (it has no name) but was built", o.name, o.p)
 	}
 	bs, err := os.ReadFile(filepath.Join(root, "out", filepath.FromSlash(target)+".fileset"))
 	if err != nil {
@@ -863,7 +902,7 @@ func (c *ctx) runOp(line string) string {
 		return c.runBuildInc(line, ws)
 	case "dbuild":
 		return c.runDockerBuildLoad(line, ws)
-	case "fset", "build":
+	case "fset", "build", "rebuild":
 		o, ok := parseFsetOp(ws)
 		if !ok || !plainPath(o.p) {
 			return "bad-op"
@@ -871,6 +910,9 @@ func (c *ctx) runOp(line string) string {
 		judge := c.judgeFset
 		if o.kind == "build" {
 			judge = c.judgeBuild
+		}
+		if o.kind == "rebuild" {
+			judge = c.judgeRebuild
 		}
 		out, key, desc := judge(o)
 		if key != "" {
@@ -884,6 +926,113 @@ func (c *ctx) runOp(line string) string {
 		return out
 	}
 	return "bad-op"
+}
+
+// judgeRebuild: two Builds of one file_set rule on ONE Builder, with sources added
+// and removed in between; each .fileset lists what the tree holds at that time.
+func (c *ctx) judgeRebuild(o *fsetOp) (out, key, desc string) {
+	all := append(append(append([]string{o.p, o.name}, o.files...), o.sel...), o.ign...)
+	if !jsonxSafe(all...) || len(o.inc) > 0 || !plainPath(o.p) || o.p == "" {
+		return "bad-op", "", ""
+	}
+	c.treeKey = "\x01invalid"
+	root, ok := c.materialise(o.tree)
+	c.treeKey = "\x01invalid"
+	if !ok {
+		return "bad-tree", "", ""
+	}
+	os.WriteFile(filepath.Join(root, "WORKSPACE.caco3"), []byte(fmt.Sprintf("repo_map { Src: {%s: \"x\"} }\n", quote(o.p))), 0o644)
+	var b strings.Builder
+	fmt.Fprintf(&b, "file_set {\n    Name: %s,\n", quote(o.name))
+	if len(o.files) > 0 {
+		fmt.Fprintf(&b, "    Files: %s,\n", quoteList(o.files))
+	}
+	if len(o.sel) > 0 {
+		fmt.Fprintf(&b, "    Select: %s,\n", quoteList(o.sel))
+	}
+	if len(o.ign) > 0 {
+		fmt.Fprintf(&b, "    Ignore: %s,\n", quoteList(o.ign))
+	}
+	b.WriteString("}\n")
+	bf := filepath.Join(root, "src", filepath.FromSlash(o.p), "BUILD.caco3")
+	os.MkdirAll(filepath.Dir(bf), 0o755)
+	os.WriteFile(bf, []byte(b.String()), 0o644)
+	target := caco3.VerifMakeRelPath(o.p, o.name)
+	builder, err := caco3.NewBuilder(root, &caco3.Config{Root: root})
+	if err != nil {
+		return "err-builder", "", ""
+	}
+	if _, errs := builder.ReadWorkspace(); errs != nil {
+		return "err-workspace", "", ""
+	}
+	src := filepath.Join(root, "src")
+	var answers []string
+	for round, tree := range [][]string{o.tree, o.tree2} {
+		if round == 1 { // sources removed and added between the two Builds
+			now := map[string]bool{}
+			for _, f := range tree {
+				now[f] = true
+			}
+			for _, f := range o.tree {
+				if !now[f] && !strings.HasSuffix(f, "BUILD.caco3") {
+					fp := filepath.Join(src, filepath.FromSlash(f))
+					os.Remove(fp)
+					for d := filepath.Dir(fp); d != src && os.Remove(d) == nil; d = filepath.Dir(d) {
+					}
+				}
+			}
+			for _, f := range tree {
+				fp := filepath.Join(src, filepath.FromSlash(f))
+				if _, err := os.Lstat(fp); err != nil {
+					os.MkdirAll(filepath.Dir(fp), 0o755)
+					os.WriteFile(fp, []byte("x:"+f), 0o644)
+				}
+			}
+		}
+		c.j.Risky(o.line())
+		errs := builder.Build([]string{target})
+		c.j.Clear()
+		if errs != nil {
+			answers = append(answers, "err")
+			continue
+		}
+		bs, err := os.ReadFile(filepath.Join(root, "out", filepath.FromSlash(target)+".fileset"))
+		if err != nil {
+			return "no-fileset", "fileset-not-written", fmt.Sprintf("build %d of %q succeeded but its .fileset is missing", round+1, target)
+		}
+		var list []struct{ Name string }
+		if len(bytes.TrimSpace(bs)) > 0 {
+			if err := json.Unmarshal(bs, &list); err != nil {
+				return "bad-fileset", "fileset-not-json", err.Error()
+			}
+		}
+		var names []string
+		got := map[string]bool{}
+		for _, e := range list {
+			names = append(names, e.Name)
+			got[e.Name] = true
+		}
+		answers = append(answers, "built files="+hl(names))
+		fo := *o
+		fo.tree = tree
+		if want, _, ok := specFileSet(&fo); ok {
+			wantSet := map[string]bool{}
+			for _, w := range want {
+				wantSet[w] = true
+				if !got[w] && key == "" {
+					key, desc = "fileset-stale-after-source-change", fmt.Sprintf(
+						"Build %d on the same Builder (Select %q, Ignore %q): %s.fileset does not list %q, which is in the source tree now (listed: %q)", round+1, o.sel, o.ign, target, w, names)
+				}
+			}
+			for _, n := range names {
+				if !wantSet[n] && key == "" {
+					key, desc = "fileset-stale-after-source-change", fmt.Sprintf(
+						"Build %d on the same Builder (Select %q, Ignore %q): %s.fileset lists %q, which is not selected in the source tree as it is now", round+1, o.sel, o.ign, target, n)
+				}
+			}
+		}
+	}
+	return strings.Join(answers, " ;; "), key, desc
 }
 
 // runBuildInc: a file set that includes 1-3 other file sets of its package, built
@@ -1613,6 +1762,59 @@ func (g *gen) dockerBuilds() {
 	}
 }
 
+// rule names that resolve to the package itself (".", "..", "x/..", "/", "./",
+// "a/../..", "") in packages at depth 0-2: such a rule has no name
+func (g *gen) unnamedRules() {
+	for _, pk := range []string{"", "p", "p/q"} {
+		tree := []string{"a.txt"}
+		if pk != "" {
+			tree = []string{pk + "/BUILD.caco3", pk + "/a.txt", "p/z.txt"}
+		}
+		sort.Strings(tree)
+		for _, name := range []string{".", "..", "x/..", "/", "./", "a/../..", "", "../..", "//", "x", "./x", "../x"} {
+			g.fsetOp("build", pk, tree, name, nil, []string{"**"}, nil, nil)
+			g.fsetOp("build", pk, tree, name, []string{"a.txt"}, nil, nil, nil)
+			g.rep.Count("build:names-resolving-to-the-package")
+		}
+	}
+}
+
+// two Builds on one Builder with sources added and removed in between
+func (g *gen) rebuilds(n int) {
+	const p = "p"
+	pool := []string{"p/a.txt", "p/b.txt", "p/foo/c.txt", "p/foo/d.txt", "p/foo/deep/e.txt", "p/new/f.txt", "p/foo.txt"}
+	sels := [][]string{{"**"}, {"foo/**"}, {"*"}, {"*.txt", "foo/**"}, {"foo/*"}, {"**", "foo/**"}}
+	pick := func() []string {
+		t := []string{"p/BUILD.caco3", "p/keep.txt", "p/foo/keep.txt"}
+		for _, f := range pool {
+			if g.r.Bool() {
+				t = append(t, f)
+			}
+		}
+		sort.Strings(t)
+		return t
+	}
+	add := func(t1, t2, sel, ign []string) {
+		o := &fsetOp{kind: "rebuild", p: p, tree: t1, tree2: t2, name: "zzset", sel: sel, ign: ign}
+		g.add(o.line(), true)
+		g.rep.Count("rebuild:sources-changed-between-builds")
+	}
+	base := []string{"p/BUILD.caco3", "p/a.txt", "p/foo/c.txt", "p/foo/keep.txt", "p/keep.txt"}
+	for _, sel := range sels {
+		add(base, append(append([]string{}, base...), "p/foo/new.txt", "p/new.txt"), sel, nil) // added
+		add(base, []string{"p/BUILD.caco3", "p/foo/keep.txt", "p/keep.txt"}, sel, nil)          // removed
+		add(base, base, sel, nil)                                                                // unchanged
+		add(base, []string{"p/BUILD.caco3", "p/a.txt", "p/foo/keep.txt", "p/foo/other.txt", "p/keep.txt"}, sel, []string{"foo/k*"})
+	}
+	for i := 0; i < n; i++ {
+		var ign []string
+		if g.r.Intn(3) == 0 {
+			ign = []string{hx.Pick(g.r, []string{"foo/", "*.txt", "foo/deep/", "a.txt"})}
+		}
+		add(pick(), pick(), hx.Pick(g.r, sels), ign)
+	}
+}
+
 func main() {
 	log.SetOutput(io.Discard)
 	f := hx.ParseFlags()
@@ -1662,6 +1864,8 @@ func main() {
 			g.treeOps(true, 1200)
 			g.malformedIgnores(true)
 			g.climbingSelects()
+			g.unnamedRules()
+			g.rebuilds(600)
 			g.staleOutputs()
 			g.exclusionSiblings()
 			g.dotNames()
@@ -1674,6 +1878,8 @@ func main() {
 			g.treeOps(false, 120)
 			g.malformedIgnores(false)
 			g.climbingSelects()
+			g.unnamedRules()
+			g.rebuilds(40)
 			g.staleOutputs()
 			g.exclusionSiblings()
 			g.dotNames()
